@@ -83,9 +83,12 @@ def perturbations(v):
     b('pmax>rankable', pmax=n2 + 1)
     b('t1<0', t1=-0.1)
     b('t1>1', t1=1.5)
+    b('t1>1 by a hair', t1='1.0000000005')
+    b('t1<0 by a hair', t1='-0.000000000001')
     if mp != 'ha':
         b('t2<0', t2=-0.25)
         b('t2>1', t2=1.01)
+        b('t2>1 by a hair', t2='1.0000000000000002')
     if mp != 'sm':
         b('uq<n2', uq=n2 - 1, lq=0)
         b('lq>uq', lq=v['uq'] + 1)
@@ -129,9 +132,15 @@ def run_case(case):
     genargs.run_prior(case.get('prior'))
     # 1. the legal vector is accepted
     nested = v['seed'] % 2 == 1
-    outdir = genargs.fresh_outdir('legal', nested, style=(v['seed'] // 2) % 5)
-    argv = genargs.build_argv(v, outdir)
-    status, code, err = genargs.run_generator(argv, v['seed'])
+    outdir = genargs.fresh_outdir('legal', nested, style=(v['seed'] // 2) % 6)
+    cwd = None
+    if (v['seed'] // 7) % 3 == 0:
+        # the README spelling: a path relative to the current directory, `-o ./hr/instances`
+        cwd, rel = genargs.relative_outdir(outdir)
+        argv = genargs.build_argv(v, rel)
+    else:
+        argv = genargs.build_argv(v, outdir)
+    status, code, err = genargs.run_generator(argv, v['seed'], cwd=cwd)
     if status != 'ok':
         raise Violation('legal_rejected:' + v['mp'], 'documented argument set %r exited with %r: %s'
                         % (argv, code, err.strip()[-200:]))
@@ -140,7 +149,7 @@ def run_case(case):
     classes = set()
     n = 0
     for name, w in perturbations(v):
-        outdir = genargs.fresh_outdir('pert', nested, style=(v['seed'] // 2) % 5)
+        outdir = genargs.fresh_outdir('pert', nested, style=(v['seed'] // 2) % 6)
         argv = _argv(w, outdir)
         status, code, err = genargs.run_generator(argv, v['seed'])
         n += 1
